@@ -18,6 +18,26 @@ struct Match {
     loops: bool,
     split_bits: usize,
     split_val: usize,
+    /// if non-zero: only `free` seeded pairs may be edges, all others are asserted absent
+    sparse_seed: u64,
+    free: usize,
+}
+impl Match {
+    fn free_pairs(&self) -> Option<Vec<(usize, usize)>> {
+        if self.sparse_seed == 0 {
+            return None;
+        }
+        let n = self.ids.len();
+        let mut all: Vec<(usize, usize)> = vec![];
+        for i in 0..n {
+            for j in (i + 1)..n {
+                all.push((i, j));
+            }
+        }
+        Rng::new(self.sparse_seed).shuffle(&mut all);
+        all.truncate(self.free);
+        Some(all)
+    }
 }
 
 /// all sets of k disjoint unordered pairs over positions 0..n
@@ -118,10 +138,14 @@ where
 
 impl Harness for Match {
     fn name(&self) -> String {
-        format!("matching/ids{:?}+{}{}/part{}of{}", self.ids, self.tail, if self.loops { "+loops" } else { "" }, self.split_val, 1usize << self.split_bits)
+        format!("matching/ids{:?}+{}{}/part{}of{}{}", self.ids, self.tail, if self.loops { "+loops" } else { "" }, self.split_val, 1usize << self.split_bits,
+            if self.sparse_seed != 0 { format!("/sparse{}x{}", self.sparse_seed, self.free) } else { String::new() })
     }
     fn bounds(&self) -> String {
-        format!("undirected SymGraph on node ids {:?} (node_bound {}), all adjacency bits symbolic{}", self.ids, self.ids.last().unwrap() + 1 + self.tail, if self.loops { ", self-loops allowed" } else { "" })
+        match self.free_pairs() {
+            None => format!("undirected SymGraph on node ids {:?} (node_bound {}), all adjacency bits symbolic{}", self.ids, self.ids.last().unwrap() + 1 + self.tail, if self.loops { ", self-loops allowed" } else { "" }),
+            Some(f) => format!("undirected SymGraph on node ids {:?}: only the {} seeded pairs {:?} may be edges (symbolic), others absent", self.ids, f.len(), f),
+        }
     }
     fn run(&self, cfg: &Config) -> Stats {
         explore(
@@ -130,6 +154,15 @@ impl Harness for Match {
                 let g = SymGraph::<(), Undirected>::with_ids("a", self.ids.clone(), self.tail, self.loops);
                 let n = g.n();
                 let mut k = 0;
+                if let Some(free) = self.free_pairs() {
+                    for i in 0..n {
+                        for j in (i + 1)..n {
+                            if !free.contains(&(i, j)) {
+                                assume(&not(&g.var(i, j)));
+                            }
+                        }
+                    }
+                }
                 for i in 0..n {
                     for j in (i + 1)..n {
                         if k < self.split_bits {
@@ -331,7 +364,7 @@ fn make(tier: &str, seed: u64) -> Vec<Box<dyn Harness>> {
     let mut v: Vec<Box<dyn Harness>> = vec![];
     let mut addm = |ids: Vec<usize>, tail: usize, loops: bool, split_bits: usize| {
         for val in 0..(1usize << split_bits) {
-            v.push(Box::new(Match { ids: ids.clone(), tail, loops, split_bits, split_val: val }) as Box<dyn Harness>);
+            v.push(Box::new(Match { ids: ids.clone(), tail, loops, split_bits, split_val: val, sparse_seed: 0, free: 0 }) as Box<dyn Harness>);
         }
     };
     addm(vec![0, 1, 2], 0, true, 0);
@@ -343,7 +376,49 @@ fn make(tier: &str, seed: u64) -> Vec<Box<dyn Harness>> {
         addm(vec![0, 1, 2, 3, 4, 5], 0, false, 9);
         addm(vec![0, 1, 3, 4, 5, 7], 2, false, 9);
     }
+    // sparse larger graphs (blossoms with stems need >= 8 nodes): 8 and 9 nodes, 13 seeded free pairs each
+    for k in 0..(if thorough { 96 } else { 16 }) {
+        let n = 8 + (k % 2) as usize;
+        v.push(Box::new(Match { ids: (0..n).collect(), tail: 0, loops: false, split_bits: 0, split_val: 0, sparse_seed: seed * 1000 + k + 1, free: 13 }));
+    }
     let mut topos: Vec<Topo> = vec![];
+    // sparse larger flow networks: 6-7 nodes, 8-10 arcs, seeded (augmenting paths that must be partly undone need length)
+    {
+        let mut r = Rng::new(seed ^ 0xF70);
+        for k in 0..(if thorough { 200 } else { 40 }) {
+            let n = 6 + (k % 2) as usize;
+            let m = 8 + r.below(3) as usize;
+            let mut edges = vec![];
+            while edges.len() < m {
+                let (a, b) = (r.below(n as u64) as usize, r.below(n as u64) as usize);
+                if a != b && b != 0 && a != n - 1 {
+                    edges.push((a, b));
+                }
+            }
+            topos.push(Topo { fam: "R".into(), id: format!("{}.{}", seed, k), n, directed: true, edges });
+        }
+    }
+    // layered networks 1-2-2-1 (all inter-layer arcs; zero capacity = absent) under seeded relabelings of the inner nodes:
+    // the smallest networks in which a BFS-shortest augmenting path has to be partly undone have this shape
+    {
+        let mut r = Rng::new(seed ^ 0x1221);
+        for k in 0..(if thorough { 24 } else { 6 }) {
+            let mut inner: Vec<usize> = vec![1, 2, 3, 4];
+            if k > 0 {
+                r.shuffle(&mut inner);
+            }
+            let (a, b, c, d) = (inner[0], inner[1], inner[2], inner[3]);
+            let mut edges = vec![(0, a), (0, b), (a, c), (a, d), (b, c), (b, d), (c, 5), (d, 5)];
+            if k % 3 == 2 {
+                edges.push((a, b));
+                edges.push((c, d));
+            }
+            if k % 2 == 1 {
+                r.shuffle(&mut edges);
+            }
+            topos.push(Topo { fam: "R".into(), id: format!("L1221.{}.{}", seed, k), n: 6, directed: true, edges });
+        }
+    }
     let t3all: Vec<Topo> = t3().into_iter().filter(|t| t.m() >= 2).collect();
     topos.extend(if thorough { t3all } else { rotate_subset(t3all, seed, 96) });
     topos.extend(t3m(seed, if thorough { 160 } else { 32 }));
@@ -357,7 +432,10 @@ fn make(tier: &str, seed: u64) -> Vec<Box<dyn Harness>> {
                 if s == d {
                     continue;
                 }
-                if !thorough && t.fam != "K4" && rng.below(3) != 0 {
+                if t.fam == "R" && (s != 0 || d != t.n - 1) {
+                    continue;
+                }
+                if !thorough && t.fam != "K4" && t.fam != "R" && rng.below(3) != 0 {
                     continue;
                 }
                 v.push(Box::new(Flow { topo: t.clone(), s, t: d, real: rng.below(4) == 0 }));
